@@ -67,21 +67,33 @@ def run_shards(pid, tier, seed, plan):
         out = os.path.join(WORK, '%s-%s-%d-%d-%d.json' % (pid, tier, seed, i, os.getpid()))
         if os.path.exists(out):
             os.remove(out)
+        # output goes to a file, never to a pipe: a shard whose pipe is full (tracebacks logged by tornado for injected
+        # failures) would block in write() until somebody reads it
+        logf = open(out + '.log', 'wb')
         p = subprocess.Popen([sys.executable, '-u', '-m', 'vf.shard', pid, tier,
                               str(seed), str(i), str(n), out],
-                             cwd=HERE, env=env, stdout=subprocess.PIPE,
-                             stderr=subprocess.STDOUT)
+                             cwd=HERE, env=env, stdout=logf, stderr=subprocess.STDOUT)
+        logf.close()
         procs.append((i, p, out))
     results, inconclusive = [], []
     deadline = time.time() + plan['timeout_s']
     for i, p, out in procs:
         left = max(1.0, deadline - time.time())
         try:
-            stdout, _ = p.communicate(timeout=left)
+            p.wait(timeout=left)
         except subprocess.TimeoutExpired:
             p.kill()
-            stdout, _ = p.communicate()
+            p.wait()
             inconclusive.append('shard %d: wall-clock watchdog (%ds) fired' % (i, plan['timeout_s']))
+        stdout = b''
+        try:
+            with open(out + '.log', 'rb') as f:
+                f.seek(0, 2)
+                f.seek(max(0, f.tell() - 4000))
+                stdout = f.read()
+            os.remove(out + '.log')
+        except OSError:
+            pass
         if os.path.exists(out):
             try:
                 with open(out) as f:
